@@ -1,5 +1,10 @@
+import os, sys
+sys.path.insert(0, os.path.dirname(os.path.dirname(os.path.abspath(__file__))))
+from srcgen import regen_src  # pre-build generator: crc.go / encoding.go -> Gen/SrcPure.v
+
 PROP = {
-    "coq": ["C17"],
+    "coq": ["C17", "C17s"],
+    "pre": [regen_src],
     "exhaustive": False,
     "rule": "16-bit codecs: all 2^16 values x 2 byte orders, both directions (exhaustive). 32/64-bit: "
             "per-byte-position exhaustion over 4 backgrounds, walking ones/zeros, NaN/inf/-0/subnormal patterns "
@@ -10,4 +15,4 @@ PROP = {
     "assumptions": ["math.Float32bits/Float64bits and their inverses are the identity on bit patterns (exercised with NaN payloads and -0)"],
 }
 
-CLAIM = {'text': 'Round trips, bijectivity and the documented register/coil layout are Coq theorems for ALL 16/32/64-bit values, both byte orders, both word orders and all bool vectors (no sampling). The model functions are compared with the real codecs on every run: exhaustively for 16 bit, per-byte-position + structured + random for 32/64 bit and bools.', 'note': 'Trusted: Coq kernel (vm_compute), extraction (ExtrOcamlBasic only), modeld driver, Go harness, VerifEnc* pass-through hooks; floats enter as bit patterns (math.Float*bits trusted, exercised).', 'technique': 'Coq proof (lia over div/mod digit lemmas, list induction) + exhaustive/structured differential correspondence'}
+CLAIM = {'text': 'Source level (C17s): every function of encoding.go is TRANSLATED from the Go source on every run (harness/cmd/gosrc -> Gen/SrcPure.v, GoLite abstract syntax with an executable semantics in Coq) and proved equal to the model codec for every value, list, byte order and word order, including the run-time panic on ragged input (c17s_*: straight-line code by symbolic evaluation, the seven loops by loop invariants). Model level: round trips, bijectivity and the documented register/coil layout are Coq theorems for ALL 16/32/64-bit values, both byte orders, both word orders and all bool vectors (no sampling). The model functions are compared with the real codecs on every run: exhaustively for 16 bit, per-byte-position + structured + random for 32/64 bit and bools.', 'note': 'Trusted: Coq kernel (vm_compute), extraction (ExtrOcamlBasic only), modeld driver, Go harness, VerifEnc* pass-through hooks; floats enter as bit patterns (math.Float*bits trusted, exercised); for the source-level theorems the gosrc translator (syntactic, with a conservative no-aliasing discipline for slices) and the GoLite semantics (Model/GoLite.v: slices as values, capacity = length, int arithmetic checked).', 'technique': 'Coq proof over the Go source of encoding.go translated on every run (GoLite deep embedding, symbolic evaluation + loop invariants) + Coq proof (lia over div/mod digit lemmas, list induction) + exhaustive/structured differential correspondence'}
